@@ -220,9 +220,24 @@ class Builder(object):
 
             for key, column in model_mapper.columns.items():
                 if key != column.key:
-                    version_class_column = version_class.__table__.c.get(column.key)
+                    # The keys of the version table's columns are the
+                    # attribute names where the table builder knew them, so
+                    # the column is looked up by its name: looking it up by
+                    # the original key finds ANOTHER column when an attribute
+                    # is named like some other column of the table
+                    # (code = Column('sku'), vendor_code = Column('code')).
+                    version_class_column = next(
+                        (
+                            c for c in version_class.__table__.c
+                            if c.name == column.name
+                        ),
+                        None
+                    )
 
-                    if version_class_column is None:
+                    if (
+                        version_class_column is None or
+                        version_class_column.key == key
+                    ):
                         continue
 
                     version_class_mapper.add_property(key, sa.orm.column_property(version_class_column))
